@@ -462,7 +462,6 @@ class CookieJar(AbstractCookieJar):
         # Create every combination of (domain, path) pairs.
         pairs = itertools.product(domains, paths)
 
-        path_len = len(request_url.path)
         # Point 2: https://www.rfc-editor.org/rfc/rfc6265.html#section-5.4
         for p in pairs:
             if p not in self._cookies:
@@ -473,8 +472,10 @@ class CookieJar(AbstractCookieJar):
                 if (domain, name) in self._host_only_cookies and domain != hostname:
                     continue
 
-                # Skip edge case when the cookie has a trailing slash but request doesn't.
-                if len(cookie["path"]) > path_len:
+                # The key only holds the path without trailing slashes: the cookie's
+                # own path must be a prefix of the request path (e.g. a cookie for
+                # "/foo/" is not sent to "/foo", one for "/foo//" not to "/foo/x").
+                if not request_url.path.startswith(cookie["path"]):
                     continue
 
                 if is_not_secure and cookie["secure"]:
